@@ -62,9 +62,12 @@ where
                 if text.lines().all(|line| line.trim().is_empty()) {
                     continue;
                 }
-                let partial = Parser::new(&text)
+                let mut partial = Parser::new(&text)
                     .parse()
                     .map_err(|error| error.with_file(source_name.to_owned()))?;
+                for global in &mut partial.globals {
+                    global.file = Some(source_name.to_owned());
+                }
                 merge_stories(&mut merged, partial);
             }
             Segment::Include(filename) => {
